@@ -617,6 +617,20 @@ def partial_call_rule(repo, rep, funcs, what):
                     hits.append(n)
             if isinstance(n, ast.Call) and isinstance(n.func, ast.Name) and n.func.id in PARTIAL_LINALG and n.func.id in f.module.imports:
                 hits.append(n)
+        # a raising test on the SIGN of computed eigenvalues / a determinant without a tolerance: for a singular positive semi-definite
+        # matrix (a covariance without an up component, rotated into another frame) the smallest eigenvalue is zero in exact arithmetic and
+        # +/-1e-20 in doubles - the test rejects or accepts such inputs by the luck of the rounding
+        for g in ast.walk(f.node):
+            if isinstance(g, ast.If) and any(isinstance(x, ast.Raise) for x in ast.walk(g)):
+                for c in ast.walk(g.test):
+                    if isinstance(c, ast.Compare) and len(c.ops) == 1 and isinstance(c.ops[0], (ast.Lt, ast.LtE, ast.Gt, ast.GtE)) and isinstance(c.comparators[0], ast.Constant) \
+                            and c.comparators[0].value == 0:
+                        spectral = [x for x in ast.walk(c.left) if isinstance(x, ast.Call) and getattr(x.func, 'attr', getattr(x.func, 'id', '')) in ('eigvalsh', 'eigvals', 'eigh', 'eig', 'det', 'slogdet')]
+                        if spectral:
+                            rep.violated('R-DOMAIN', key + '::sign-test', where(f, g), '`%s`: an exact sign test on computed eigenvalues (no tolerance) in front of a raise - for a valid but '
+                                         'rank-deficient covariance (horizontal only, one direction only, a zero variance) the zero eigenvalue comes out as +/-1e-20 after the rotation into '
+                                         'the Cartesian frame, and whether the call raises depends on the station' % stmt_text(g.test)[:70],
+                                         expected='no rejection of positive semi-definite input (or a tolerance relative to the largest eigenvalue)', actual=stmt_text(g.test)[:80])
         if not hits:
             rep.holds('R-DOMAIN', key, where(f, f.node), '%s applies no function that is undefined for singular matrices to %s' % (q, what))
         for n in hits[:3]:
